@@ -40,6 +40,7 @@ type c09Case struct {
 	Gated  string     `json:"gated,omitempty"` // detached-leaf | double-cleanup | cleanup-vs-insert | cleanup-vs-retain | resub-vs-publish | dup-unsub-behind-writer
 	// kind "replace": K retained publishes (QoS RQoS, tags 1..K, never empty) on one topic by one goroutine while another
 	// reads Retained(topic) all the time: the topic has a retained message at every moment of every linearization
+	// kind "sweep": K iterations of "an expired retained message is swept by readers while a fresh one is stored"
 	K    int `json:"k,omitempty"`
 	RQoS int `json:"rqos,omitempty"`
 }
@@ -60,6 +61,7 @@ type c09RoundObs struct {
 type c09Obs struct {
 	Rounds []c09RoundObs `json:"rounds"`
 	Rep    *c09Replace   `json:"rep,omitempty"`
+	Lost   *int          `json:"lost,omitempty"`
 	Err    string        `json:"err,omitempty"`
 }
 
@@ -135,6 +137,9 @@ func (p *c09Prop) Gen(r *Rng, i int, tier string) interface{} {
 		return &c09Case{Kind: "gated", Gated: "cleanup-vs-insert"}
 	}
 	if i%8 == 3 {
+		if i%16 == 11 {
+			return &c09Case{Kind: "sweep", K: 2500 + r.Intn(1000)}
+		}
 		return &c09Case{Kind: "replace", K: 200 + r.Intn(400), RQoS: r.Intn(2)}
 	}
 	c := &c09Case{Kind: "rounds"}
@@ -319,6 +324,9 @@ func (p *c09Prop) Run(ci interface{}) interface{} {
 	}
 	if c.Kind == "replace" {
 		return p.runReplace(c)
+	}
+	if c.Kind == "sweep" {
+		return p.runSweep(c)
 	}
 	obs := &c09Obs{}
 	e, err := newC09Env(nil)
@@ -757,6 +765,82 @@ func (p *c09Prop) runReplace(c *c09Case) interface{} {
 	return obs
 }
 
+func (p *c09Prop) runSweep(c *c09Case) interface{} {
+	obs := &c09Obs{}
+	e, err := newC09Env(nil)
+	if err != nil {
+		obs.Err = err.Error()
+		return obs
+	}
+	defer e.prov.Shutdown()
+	prov := e.prov
+	mk := func(topic string, tag byte, expired bool) *mqttp.Publish {
+		m := mqttp.NewPublish(mqttp.ProtocolV50)
+		_ = m.Set(topic, []byte{0, tag}, 1, true, false)
+		if expired {
+			m.SetExpireAt(time.Now().Add(-time.Hour))
+		}
+		return m
+	}
+	poll := func(want int) bool {
+		deadline := time.Now().Add(5 * time.Second)
+		for time.Now().Before(deadline) {
+			if r, _ := prov.Retained("zz/b"); len(r) == want {
+				return true
+			}
+		}
+		return false
+	}
+	// the retainer is one goroutine behind a FIFO channel: when a later retain is visible the earlier ones are done
+	barrier := func() bool {
+		_ = prov.Retain(mk("zz/b", 1, false))
+		if !poll(1) {
+			return false
+		}
+		m := mqttp.NewPublish(mqttp.ProtocolV311)
+		_ = m.Set("zz/b", []byte{}, 1, true, false)
+		_ = prov.Retain(m)
+		return poll(0)
+	}
+	lost := 0
+	for it := 0; it < c.K; it++ {
+		_ = prov.Retain(mk("e/t", 1, true))
+		if !barrier() {
+			obs.Err = "retain barrier timed out"
+			return obs
+		}
+		var wg sync.WaitGroup
+		start := make(chan struct{})
+		for g := 0; g < 6; g++ {
+			wg.Add(1)
+			go func() {
+				defer wg.Done()
+				<-start
+				for k := 0; k < 20; k++ {
+					_, _ = prov.Retained("e/t")
+				}
+			}()
+		}
+		wg.Add(1)
+		go func() {
+			defer wg.Done()
+			<-start
+			_ = prov.Retain(mk("e/t", 2, false))
+		}()
+		close(start)
+		wg.Wait()
+		if !barrier() {
+			obs.Err = "retain barrier timed out"
+			return obs
+		}
+		if r, _ := prov.Retained("e/t"); len(r) != 1 {
+			lost++
+		}
+	}
+	obs.Lost = &lost
+	return obs
+}
+
 func c09OpTerm(op c01Op) string {
 	switch op.Op {
 	case "sub":
@@ -774,6 +858,12 @@ func (p *c09Prop) Coq(ci interface{}, oi interface{}) string {
 	rounds := c.Rounds
 	if c.Kind == "gated" {
 		rounds = p.gatedRounds(c.Gated)
+	}
+	if c.Kind == "sweep" {
+		if o.Lost == nil {
+			return "(mkCase9 [] false)"
+		}
+		return fmt.Sprintf("(mkCase9 [HSweep %d %d] %s)", c.K, *o.Lost, cBool(o.Err == ""))
 	}
 	if c.Kind == "replace" {
 		if o.Rep == nil {
@@ -820,6 +910,9 @@ func (p *c09Prop) Class(ci interface{}, oi interface{}) (string, bool) {
 	}
 	if c.Kind == "replace" {
 		return fmt.Sprintf("replace-qos%d", c.RQoS), true
+	}
+	if c.Kind == "sweep" {
+		return "expiry-sweep-vs-fresh-retain", true
 	}
 	n := 0
 	for _, rd := range c.Rounds {
